@@ -48,13 +48,30 @@ fn run(id: &str) -> i32 {
     silence_panics();
     let dim = apply_dim();
     let ctx = Ctx { tier, seed, threads, dim };
-    let rep = Report::new(id);
+    // leaked: the hang watchdog keeps a reference for the life of the process
+    let rep: &'static Report = Box::leak(Box::new(Report::new(id)));
+    {
+        let out = out.clone();
+        let _ = EMERGENCY_EXIT.set(Box::new(move || {
+            let j = rep.to_json(tier, seed);
+            let text = serde_json::to_string_pretty(&j).unwrap_or_default();
+            match &out {
+                Some(p) => {
+                    let _ = std::fs::write(p, text);
+                }
+                None => println!("{text}"),
+            }
+            std::process::exit(0);
+        }));
+    }
+    // a call into the subject (every one is made through common::guarded) that does not return within 30 s
+    start_watchdog(rep, "hang", 30);
     if let Some(p) = replay {
         let text = std::fs::read_to_string(&p).expect("replay file");
         let v: serde_json::Value = serde_json::from_str(&text).expect("replay json");
         let w = v.get("witness").cloned().unwrap_or(v);
         let r1 = Report::new(id);
-        if !dispatch_replay(id, &w, &r1) || !dispatch_replay(id, &w, &rep) {
+        if !dispatch_replay(id, &w, &r1) || !dispatch_replay(id, &w, rep) {
             return 2;
         }
         let a = r1.to_json(tier, seed)["violations"].to_string();
@@ -65,7 +82,7 @@ fn run(id: &str) -> i32 {
         }
         rep.eval(1);
         rep.note("replay", serde_json::json!(p));
-    } else if !dispatch(id, &ctx, &rep) {
+    } else if !dispatch(id, &ctx, rep) {
         return 2;
     }
     let j = rep.to_json(tier, seed);
